@@ -62,7 +62,7 @@ func goatTxCoq(tx *ethtypes.Transaction, st *Stats, recs []lkOpRec, delivered ma
 				min = p.ExitingDuration
 			}
 			if now.Before(rt.Add(min)) {
-				st.Violate("C15", "delay", "unlock-early", fmt.Sprintf("unlock %d requested at %d delivered at %d, before the %s delay", t.Id, rt.Unix(), now.Unix(), min), recs)
+				st.Violate("C15", "delay", "unlock-early", fmt.Sprintf("unlock %d requested at %d ms delivered at %d ms, before the %s delay", t.Id, rt.UnixMilli(), now.UnixMilli(), min), recs)
 			}
 		} else {
 			st.Violate("C15", "once", "unlock-invented", fmt.Sprintf("unlock %d delivered but never requested", t.Id), recs)
